@@ -22,6 +22,21 @@ class _Sentinel:
 SENTINELS = [_Sentinel(i) for i in range(4)]
 
 
+def stop_fn():
+    """A function that is a value (`strategy = will_reset_to(stop_fn)`), not a factory."""
+    raise AssertionError("vf: a will_reset_to default was called")
+
+
+class NoTarget:
+    """A class that is a value (`target = will_reset_to(NoTarget)`)."""
+
+    def __init__(self, *a, **k):
+        raise AssertionError("vf: a will_reset_to default was instantiated")
+
+
+SENTINELS += [stop_fn, NoTarget]
+
+
 def resolve(v):
     """Spec value -> python object ({'$sentinel': k} stands for one of the identity-only sentinel objects)."""
     if isinstance(v, dict) and "$sentinel" in v:
